@@ -1163,7 +1163,62 @@ class C15Monitor(Monitor):
         os.remove(path)
 
 
+# ===========================================================================
+# C01 dispatch order on whole models (events of real devices through the real queue)
+# ===========================================================================
+class C01FloorMonitor(Monitor):
+    def start(self, f):
+        self.prev_now = 0
+        self.executed = {}
+        self.t0 = 0
+        self.keep = []
+
+    def before_step(self, f):
+        q = list(f.env._events)
+        self.snap = q
+        self.min_key = min((e.time, -e.event_type) for e in q)
+        if sum(1 for e in q if (e.time, -e.event_type) == self.min_key) > 1:
+            f.stats['tie_groups'] += 1
+        self.prev_now = f.env.now
+
+    def after_step(self, f, e):
+        env = f.env
+        if e is None:
+            f.fail('C01.a', 'step() executed no event', 'noexec')
+        if not any(e is x for x in self.snap):
+            f.fail('C01.a', 'the executed event was not in the queue', 'notqueued')
+        if (e.time, -e.event_type) != self.min_key:
+            f.fail('C01.a', f'executed an event with time={e.time} priority={float(e.event_type)} while the queue held '
+                   f'one with time={self.min_key[0]} priority={-self.min_key[1]}', 'notmin')
+        if env.now != e.time:
+            f.fail('C01.b', f'clock is {env.now} after executing an event due at {e.time}', 'clock')
+        if env.now < self.prev_now:
+            f.fail('C01.b', f'clock went backwards: {self.prev_now} -> {env.now}', 'backwards')
+        if any(e is x for x in env._events):
+            f.fail('C01.d', 'the executed event is still queued', 'requeued')
+        if id(e) in self.executed:
+            f.fail('C01.d', 'an event was dispatched twice', 'twice')
+        self.executed[id(e)] = True
+        self.keep.append(e)
+        self.ev(f, 'C01.a')
+
+    def after_simulate(self, f):
+        env = f.env
+        dur = f.spec['plan'][self.n_sim] if hasattr(self, 'n_sim') else f.spec['plan'][0]
+        self.n_sim = getattr(self, 'n_sim', 0) + 1
+        end = self.t0 + dur
+        if env.now != end:
+            f.fail('C01.e', f'simulate({dur}) from {self.t0} ended with the clock at {env.now}', 'endclock')
+        for e in env._events:
+            if e.time < end or (e.time == end and e.event_type > 1):
+                f.fail('C01.e', f'simulate({dur}) from {self.t0} returned leaving an event due at {e.time} '
+                       f'(priority {float(e.event_type)})', 'left')
+        self.t0 = end
+        self.ev(f, 'C01.e')
+
+
 BY_PROP = {
+    'C01': [C01FloorMonitor],
     'C02': [DownTracker, Census, C02Monitor],
     'C03': [C03Monitor],
     'C05': [C05Monitor],
